@@ -290,6 +290,14 @@ theorem run_start_ok (c : Proposal.Cfg) (D : List ℕ) (hne : D ≠ []) (hnd : D
     (hbig : ∀ a ∈ D, a < Orders.Forest.big) : Holds c D (single D) :=
   single_holds c hne hnd hbig
 
+open PhyModel.RunOK PhyModel.Store in
+/-- the start store of a chain: any store built from the empty tree `Tree(grid_size)` by a history of
+legal edits within the data set (as `Tree.get_single_node_tree` does: `create_root_node`, then the data
+points one by one) satisfies the store invariants — C07 `inv_run`, C06 `cacheOK_run_legal` -/
+theorem run_start_store_ok (dt : Data) (hd : C03.PosData dt) (s0 : Store)
+    (h : LegalFrom dt (Store.init dt) s0) : C15.Inv dt s0 :=
+  sinv_of_legalFrom (fun i s k hi hs hk => ne_of_gt (hd.L_pos i s k hi hs hk)) (sinv_init dt) h
+
 theorem exData_pos : C03.PosData exData where
   G_pos := by decide
   L_pos := by
@@ -301,6 +309,11 @@ theorem exData_pos : C03.PosData exData where
     intro i hi
     simp only [exData, Data.n, List.length] at hi
     interval_cases i <;> norm_num [exData, Data.opOf]
+
+/-- non-vacuity: the start store of the example is one `create_root_node` away from the empty tree and
+represents the single-clone tree -/
+example : C15.Inv exData RunOK.Ex.s0 ∧ RunOK.absT RunOK.Ex.s0 = RunOK.single [0, 1] :=
+  ⟨run_start_store_ok exData exData_pos RunOK.Ex.s0 RunOK.Ex.legal0, by decide +kernel⟩
 
 /-- non-vacuity: a burn-in sweep and a main sweep from the single-clone tree of the two-point data set
 end in "clone {0}, data point 1 an outlier" -/
